@@ -44,11 +44,26 @@ def execute(job):
         n = int(rng.integers(1, 11))
         pos = rng.integers(-9, 15, (n, 3))  # inside or outside the cell
         C, P = cell.astype(float), pos.astype(float)
-        f = g.to_scaled(C.copy(), P.copy())
-        w = g.to_scaled(C.copy(), P.copy(), wrap=True, pbc=pbc)
-        back = g.to_cartesian(C.copy(), np.array(f, dtype=float))
+        # one of several valid encodings of the same arguments per record (ndarray / integer dtype / ase Cell / Fortran order /
+        # read-only / non-contiguous; pbc as list, tuple or array): the clauses below judge the result whatever the encoding
+        from .c10 import ENCODINGS, encode
+
+        enc = ENCODINGS[int(rng.integers(len(ENCODINGS)))] if k else "baseline"
+        Pa, Ca, pbca = encode(enc, P, C, pbc, unrotated=True)
+        f = g.to_scaled(Ca, Pa)
+        Pa, Ca, pbca = encode(enc, P, C, pbc, unrotated=True)
+        w = g.to_scaled(Ca, Pa, wrap=True, pbc=pbca)
+        Fa, Ca, _ = encode(enc if enc != "int_if_integral" else "baseline", np.array(f, dtype=float), C, pbc)
+        back = g.to_cartesian(Ca, Fa)
+        # to_cartesian(wrap=True): the cartesian image of the wrapped fractional coordinates (observed through to_scaled)
+        # (to_cartesian wraps the caller's array in place, so a read-only array is not a valid argument for this call)
+        Fa, Ca, pbca = encode(enc if enc not in ("int_if_integral", "readonly") else "baseline", np.array(f, dtype=float), C, pbc)
+        wc = g.to_scaled(C.copy(), np.asarray(g.to_cartesian(Ca, Fa, wrap=True, pbc=pbca), dtype=float))
+        f, w, back = np.asarray(f, dtype=float), np.asarray(w, dtype=float), np.asarray(back, dtype=float)
+        wcd = np.asarray(wc, dtype=float) * det
         fd, wd = f * det, w * det
-        resid = max(np.abs(fd - np.rint(fd)).max(), np.abs(wd - np.rint(wd)).max(), np.abs(back - np.rint(back)).max())
+        resid = max(np.abs(fd - np.rint(fd)).max(), np.abs(wd - np.rint(wd)).max(), np.abs(back - np.rint(back)).max(),
+                    np.abs(wcd - np.rint(wcd)).max())
         # wrapping may land on 1.0 - eps; rounding to the grid is fine since all values are multiples of 1/det
         # history: the same cell object is used again after it was changed in place (swap_basis -> Atoms.set_cell)
         from ase import Atoms as _Atoms
@@ -65,8 +80,8 @@ def execute(job):
         hist = {"cell_after": cell_after.tolist(), "det_after": det_after, "fdet_after": np.rint(fa).astype(int).tolist(),
                 "hist_exact": bool(resid < 1e-6)}
         return {"ev": "scaled", "cell": cell.tolist(), "det": det, "pbc": pbc, "pos": pos.tolist(), **hist,
-                "fdet": np.rint(fd).astype(int).tolist(), "wdet": np.rint(wd).astype(int).tolist(),
-                "back": np.rint(back).astype(int).tolist(), "exact": bool(resid < 1e-6), "cfg": [kind, str(name), str(pbc), k]}
+                "fdet": np.rint(fd).astype(int).tolist(), "wdet": np.rint(wd).astype(int).tolist(), "wcdet": np.rint(wcd).astype(int).tolist(),
+                "back": np.rint(back).astype(int).tolist(), "exact": bool(resid < 1e-6), "cfg": [kind, str(name), str(pbc), k, enc]}
     if kind in ("minimize", "com", "swap"):
         n = int(rng.integers(1, 11))
         cell = structures.random_cell(rng, ["orthogonal", "skewed", "sheared"][k % 3], float(rng.uniform(3, 10)))
